@@ -114,6 +114,64 @@ def run(ctx):
                 if wi < 2 and victim == victims[0]:
                     res.sample({"case": {k: v for k, v in case.items() if k != "source"}, "error": err, "executed": r["log"],
                                 "stored_before_failure": completed, "repaired_executed": r2["log"]})
+    # kept steps that run on worker threads of the evaluating process (a thread pool inside the evaluated function), a later
+    # step fails: nothing is committed either, and the repaired pipeline evaluates to what plain execution gives
+    import os
+    import shutil
+    import sys
+    import tempfile
+    real = pipeline.real_runner()
+    ref = pipeline.ref_worker()
+    for ti, kind in enumerate(["Boom", "KeyboardInterrupt", "KeyError"][: (3 if thorough else 2)]):
+        base = tempfile.mkdtemp(prefix="ddsverif_c10t_")
+        pkg = "c10t_%d_%d" % (os.getpid(), ti)
+        try:
+            store_kind = ["memory", "local", "local_lru"][ti % 3]
+            real.reset_process_state()
+            real.set_store(store_kind, os.path.join(base, "si"), os.path.join(base, "sd"))
+            ref.call(cmd="refpaths", paths={})
+            for step, (fail, ver) in enumerate([(True, 1), (False, 1), (True, 2), (False, 2)]):
+                src = ("import dds\nfrom concurrent.futures import ThreadPoolExecutor\nfrom ddsverif_rt import log, term, boom\n\n"
+                       "def extract():\n    log('extract')\n    return term('extract#%d')\n\n"
+                       "def lookup():\n    log('lookup')\n    return term('lookup#%d')\n\n"
+                       "def job_a():\n    return dds.keep('/t/extract', extract)\n\n"
+                       "def job_b():\n    return dds.keep('/t/lookup', lookup)\n\n"
+                       "def final(a, b):\n    log('final')\n%s    return term('final', a, b)\n\n"
+                       "def f0():\n    with ThreadPoolExecutor(max_workers=1) as pool:\n        a = pool.submit(job_a).result()\n"
+                       "        b = pool.submit(job_b).result()\n    return dds.keep('/t/final', final, a, b)\n"
+                       % (ver, ver, ("    boom(%r, 'final')\n" % kind) if fail else ""))
+                os.makedirs(os.path.join(base, pkg), exist_ok=True)
+                open(os.path.join(base, pkg, "__init__.py"), "w").close()
+                with open(os.path.join(base, pkg, "main.py"), "w") as fh:
+                    fh.write(src)
+                real.load_world(base, pkg + ".main", None, accept=pkg)
+                ref.call(cmd="world", dir=base, module=pkg + ".main", extmod=None)
+                entry = {"kind": "eval", "fun": "f0"}
+                rr = ref.call(cmd="run", entry=entry)
+                r = real.run(entry)
+                res.evaluations += 1
+                res.count("worker_thread_steps")
+                res.nontrivial("threads %s step %d" % (kind, step))
+                case = {"scenario": "kept steps on worker threads", "exception": kind, "step": step, "store": store_kind, "source": src}
+                bad = None
+                if fail:
+                    err = r["error"]
+                    if err is None or err["kind"] != "exc" or err["cls"] != kind or not err.get("same_object"):
+                        bad = "the exception raised by final did not come out of dds unchanged: %s" % (err,)
+                    elif r["synced"]:
+                        bad = "paths were committed although the evaluation failed: %s" % (r["synced"],)
+                    elif not r["idle"]:
+                        bad = "dds is still inside an evaluation context after the failure"
+                elif r["error"] is not None or r["value"] != rr.get("value"):
+                    bad = "the repaired pipeline gives %r (error %s), plain execution %r" % (r["value"], r["error"], rr.get("value"))
+                if bad:
+                    res.violations.append({"what": bad, "input": case, "kf": None})
+                    break
+        finally:
+            shutil.rmtree(base, ignore_errors=True)
+            for k in list(sys.modules):
+                if k.split(".")[0] == pkg:
+                    del sys.modules[k]
     pipeline.close_ref()
     res.rule = ("%d generated pipelines x failing function (quick: 3 per pipeline; thorough: every function) x exception classes %s x entry "
                 "{eval, keep} x stores {memory, local, local+cache}; each followed by the repaired pipeline; one case = (pipeline, failing "
